@@ -165,6 +165,10 @@ def flip_normal_form(run, f, loop_form):
 
 def sampler(run, repo, f):
     """random_clifford.random_clifford_ : rows 0,1 <- diagonalised pair; recursion on gs[2:,2:]; undo in reverse."""
+    if not [c for c in ast.walk(f.node) if isinstance(c, ast.Call) and norm(c.func) == f.name]:
+        # no recursive call: the sampler was rewritten (e.g. iteratively); the clauses below describe the recursive form only
+        run.undecided('R13.sampler', f, f.name, 'the sampler is not recursive: its structure is not read by this rule')
+        return
     stores = {}
     for st, ctx in walk(f.node):
         if isinstance(st, ast.Assign) and isinstance(st.targets[0], ast.Subscript) and norm(st.targets[0].value) == 'gs' \
